@@ -17,7 +17,7 @@ CHECKS = {
  "C19": ("exploration",
          "complete enumeration of the colour space and of a configuration grid through the real parser against a reference acceptance predicate; start-up probes of every accepted single and pairwise configuration",
          "All 16^6 (quick) / 22^6 (thorough) six-digit colours and all 21.4 million strings of length <=7 over an 11-symbol alphabet through the real converter; the full product hook(7) x cache_size(7) x preload_amount(8) x timeout_seconds(8) x feeds(5), the four colours (6^4) and unknown keys, unknown tables (also ones that hold nothing) and a syntax error pairwise with every key through the real parser: reject / accept exactly as the reference says, accepted colours are decimal triples 0..255; every accepted configuration with at most two keys set starts a probe process (this binary under XDG_CONFIG_HOME) driving the real UI: rejected with a diagnostic or runs to PROBE-OK.",
-         "Trusted: the reference acceptance predicate and the probe script in checks/c19; well-typed but out-of-range values may be rejected or accepted (only accepted-and-crashing counts); the probe exercises open, move, select, links, media, history, creators, feed and resize over the in-memory peer.",
+         "Trusted: the reference acceptance predicate and the probe script in checks/c19; well-typed but out-of-range values may be rejected or accepted (only accepted-and-crashing counts); the probe exercises open, move, select, links, media, history, creators, every configured feed plus an unknown one, and resize over the in-memory peer.",
          "DESIGN.md §3 C19"),
  "C01": ("exploration",
          "bounded-exhaustive enumeration of control code points x encodings x carriers x sinks x widths against a terminal-safety oracle",
@@ -26,7 +26,7 @@ CHECKS = {
          "DESIGN.md §3 C01"),
  "C06": ("exploration",
          "bounded-exhaustive enumeration of JSON shape deviations, markup forests and nesting chains through pub.New and every Tangible method, in worker processes with a crash/hang watchdog",
-         "21 baseline documents x every field x 30 values (single deviations) and field pairs (8 values on 5 baselines quick; 30 values on all baselines thorough), top-level non-objects, HTML forests up to 3/4 nodes and gemtext/Markdown/plaintext sequences as post bodies, 15 nesting families (direct and through intermediate elements such as h4>div, pre>div, code>pre) x inner content at 13 depths up to 120 (quick) / every depth 1..120 at 4 widths (thorough): no panic (also none in a background goroutine), no nil item, every case finishes within the horizon.",
+         "21 baseline documents x every field x 31 values (single deviations) and field pairs (8 values on 5 baselines quick; 31 values on the 5 primary baselines thorough), top-level non-objects, HTML forests up to 3/4 nodes and gemtext/Markdown/plaintext sequences as post bodies and (the smaller spaces) as actor bios and announced actors, 15 nesting families (direct and through intermediate elements such as h4>div, pre>div, code>pre) x inner content at 13 depths up to 120 (quick) / every depth 1..120 at 4 widths (thorough): no panic (also none in a background goroutine), no nil item, every case finishes within the horizon.",
          "Objects are passed as embedded values (no network); promptness is a 90 s per-case horizon plus a goroutine-count cap in the worker, deliberately loose (normal cases take milliseconds, the worst bounded case 3 s); a crashed worker is restarted without the crashing case.",
          "DESIGN.md §3 C06"),
  "C02": ("model_checking",
@@ -36,7 +36,7 @@ CHECKS = {
          "DESIGN.md §3 C02"),
  "C09": ("exploration",
          "enumeration of listing worlds (entry kinds x representations x orders x paging) compared position by position with generator ground truth",
-         "Outbox of an actor with 13 activity kinds x 4 representations (+404, junk), reply collection of a post with 14 reply kinds x 2 representations, actors and parents whose ids differ from the genuine one only in the query, all singles, all ordered pairs (inline and split over a remote page) and, in thorough, all ordered triples over the URL-form kinds; 12 author cases directly and as an announced object: every position shows the genuine item or an error item as ground truth says, nothing is dropped or reordered.",
+         "Outbox of an actor with 13 activity kinds x 4 representations (+404, junk), reply collection of a post with 14 reply kinds x 2 representations, actors and parents whose ids differ from the genuine one only in the query, all singles, all ordered pairs (inline and split over a remote page) and, in thorough, all ordered triples over the URL-form kinds; 12 author cases directly and as an announced object: entries behind a redirect from the owner's host to a forged or foreign document; every position shows the genuine item or an error item as ground truth says, nothing is dropped or reordered, at the first look and at a second look with everything cached.",
          "Env-B world; ground truth is written from the statement in checks/c09 (genuine = activity whose actor is the owner by id / reply whose parent resolves to the post's id / authors on the post's host, two missing ids counting as the same place).",
          "DESIGN.md §3 C09"),
  "C04": ("exploration",
@@ -52,11 +52,11 @@ CHECKS = {
  "C03": ("model_checking",
          "full product of a response grammar against a three-valued reference classifier; redirect-graph enumeration; explicit-state search over fetch histories and cache sizes on the real jtp.Get",
          "257 855 response exchanges (quick; status-line atoms x all header sequences of length <=2 over 23 atoms incl. confusable header names x 14 bodies x 2 tolerated sets; thorough adds length-3 header sequences and all bodies for every status), chains of every length around budgets 0..3 (jtp.Get) and 20 (client.FetchURL) in 5 Location styles, cycles, 7 kinds of bad hop at each position, and a breadth-first search over fetch histories (URLs incl. an http twin, a redirect to it, fragment and :443 variants, depth 4/5, cache sizes 1,2,3,128; state = real cache contents) where every fetch is compared with the cold result; request counts per fetch are bounded by the budget.",
-         "Env-B (verifrt.Dial seam, no TLS). Exchanges the statement is silent on are crash-checked only. One known finding (cached suffix extends the redirect budget) is listed in known-findings.txt.",
+         "Env-B (verifrt.Dial seam, no TLS). Exchanges the statement is silent on are crash-checked only. No known finding remains (the cached-suffix budget extension was repaired, a116582).",
          "DESIGN.md §3 C03"),
  "C20": ("exploration",
          "bounded-exhaustive enumeration of hook configurations x hostile links x media types x entry points through the real UI with a real exec of a dump program",
-         "Hook = dump program + every argument sequence of length <=2 (quick, 94 hooks) / <=3 (thorough, 823) over 9 tokens (placeholders, embedded and repeated placeholders, wrong case, --, empty) plus hooks whose program name is a placeholder; 21 links (four exactly a placeholder, spaces, quotes, ;, $(), backticks, leading dashes, text that looks like a placeholder, 4 kB, the path of an executable) x 7 media types (three made of placeholder-like tokens, one unknown) x 6 entry points (o, number+Enter for body link and attachment, p, b): exactly one process per key, argv equals the configured argv with exact-match substitution at indices >= 1, stdin carries the link iff no %url argument, the program name is never substituted, the UI returns to normal mode.",
+         "Hook = dump program + every argument sequence of length <=2 (quick, 94 hooks) / <=3 (thorough, 823) over 9 tokens (placeholders, embedded and repeated placeholders, wrong case, --, empty) plus hooks whose program name is a placeholder; 22 links (four exactly a placeholder, one with userinfo, spaces, quotes, ;, $(), backticks, leading dashes, text that looks like a placeholder, 4 kB, the path of an executable) x 7 media types (three made of placeholder-like tokens, one unknown) x 7 entry points (o, number+Enter for body link, named and unnamed attachment, p, b): exactly one process per key, argv equals the configured argv with exact-match substitution at indices >= 1, stdin carries the link iff no %url argument, the program name is never substituted, the UI returns to normal mode.",
          "Trusted: /verif/bin/vdump (records argv/stdin); the expected link and media type come from the generated world (which link was put in which slot with which declared type), the item's own selector is only cross-checked against it; every page's opens are pressed in sequence and in reverse under one configuration object; UI in pass-through mode over the in-memory peer.",
          "DESIGN.md §3 C20"),
  "C11": ("model_checking",
